@@ -272,6 +272,65 @@ func c13Visibility(tier string, i int) CaseResult {
 	return cr
 }
 
+// c13PerRequest: one client, one session; the headers differ from request to request (a gateway
+// that multiplexes users, a rotated credential, a per-request trace id). What a context function
+// derives is the value of the request being processed, not of the request that opened the session.
+func c13PerRequest(tier string, i int) CaseResult {
+	modes := []string{"sj", "ss", "sl", "sd", "ls"}
+	mode := modes[i]
+	cr := CaseResult{Desc: "mode=" + mode + ": one session whose requests carry different header values", Nontrivial: true}
+	var viol []explore.Violation
+	obs := &hx.Log{}
+	res := vsched.Run(vsched.Config{}, func() {
+		trace := &hx.Log{}
+		r := c13RigMask(mode, trace, 7)
+		p := NewRawPeer(r)
+		p.P.Headers["X-Tok"] = "connect"
+		if err := p.Handshake(); err != nil {
+			viol = append(viol, V("setup-handshake-fails", "setting the scenario up with well-behaved peers fails: %v", err))
+			return
+		}
+		sid := p.SID
+		if mode == "ls" {
+			sid = "sse-0001"
+		}
+		n := 0
+		for round, toks := range [][]string{{"admin", "guest"}, {"guest", "admin"}} {
+			for k, op := range c13Ops {
+				tok := toks[k%2]
+				p.P.Headers["X-Tok"] = tok
+				id := 300 + 10*round + k
+				f, err := p.Call(fmt.Sprintf(`{"jsonrpc":"2.0","id":%d,"method":%q,"params":%s}`, id, op, c13Params(op)), fmt.Sprint(id))
+				if err != nil {
+					viol = append(viol, V("call-fails:"+mode, "%s: %v", op, err))
+					continue
+				}
+				if key, msg := c13Judge(mode, op, tok, sid, f); key != "" {
+					viol = append(viol, V("per-request-"+key+":"+mode+":"+op, "the session was opened with X-Tok=connect, this request carries X-Tok=%s: %s", tok, msg))
+				}
+				n++
+			}
+		}
+		for _, e := range trace.Items() {
+			var id int
+			var tok string
+			fmt.Sscanf(e, "mw %d %s", &id, &tok)
+			if id >= 300 {
+				want := [][]string{{"admin", "guest"}, {"guest", "admin"}}[(id-300)/10][(id-300)%10%2]
+				if tok != want {
+					viol = append(viol, V("per-request-middleware-bleed:"+mode, "the middleware processed request %d (sent with X-Tok=%s) with token %q", id, want, tok))
+				}
+			}
+		}
+		obs.Add("%d judged", n)
+	})
+	o := finishOutcome(res, obs, viol, true)
+	cr.ObsKey = cr.Desc + o.ObsKey
+	cr.Violations = o.Violations
+	cr.Broken = o.Broken
+	return cr
+}
+
 func c13Run(prefix []int, mode string, opsA, opsB []string) explore.Outcome {
 	var viol []explore.Violation
 	obs := &hx.Log{}
@@ -345,13 +404,16 @@ func init() {
 	}
 	RegisterEnum(&Enum{Name: "c13/visibility", Doc: "one tools/call, prompts/get and resources/read on each of 5 server configurations (incl. sessions disabled): context-function values in registration order, session, server handle and notification sender are visible to the handler",
 		Count: func(string) int { return 5 }, Eval: c13Visibility})
+	RegisterEnum(&Enum{Name: "c13/per-request", Doc: "one session on each of 5 server configurations whose successive requests (every list/call/get/read operation, twice) carry alternating header values, all different from the ones of the request that opened the session: context values, list filters and the middleware follow the request being processed",
+		Count: func(string) int { return 5 }, Eval: c13PerRequest})
 	RegisterEnum(&Enum{Name: "c13/filter-subsets", Doc: "every subset of {tool, prompt, resource} list filters on 4 server modes: the guest misses the secret entry exactly in the lists whose filter is configured",
 		Count: func(string) int { return 32 }, Eval: c13Subsets})
 	RegisterCheck("C13", func(c *Ctx) {
 		c.Level = "exploration"
 		c.Enumerate("c13/filter-subsets")
 		c.Enumerate("c13/visibility")
-		c.Rule = "two clients with distinct header tokens (admin/guest) concurrently issue every pair of {tools/list, tools/call, prompts/list, prompts/get, resources/list, resources/read} on Streamable (JSON, SSE, stateless) and legacy SSE servers configured with two order-sensitive HTTP context functions, list filters, a middleware and echoing handlers; DFS (sleep-set reduced) over all schedules within the preemption bound; each answer and each middleware record must carry the requester's own token/session, and a note the middleware leaves on the request's session must be the one the handler of the same request reads back; plus the complete enumeration of the 8 subsets of configured list filters x 4 modes"
+		c.Enumerate("c13/per-request")
+		c.Rule = "two clients with distinct header tokens (admin/guest) concurrently issue every pair of {tools/list, tools/call, prompts/list, prompts/get, resources/list, resources/read} on Streamable (JSON, SSE, stateless) and legacy SSE servers configured with two order-sensitive HTTP context functions, list filters, a middleware and echoing handlers; DFS (sleep-set reduced) over all schedules within the preemption bound; each answer and each middleware record must carry the requester's own token/session, and a note the middleware leaves on the request's session must be the one the handler of the same request reads back; plus the complete enumeration of the 8 subsets of configured list filters x 4 modes, and of one session whose requests carry alternating header values (per-request evaluation of context functions, filters and middleware)"
 		c.Assume = append(c.Assume, "memnet replaces net/http", "sleep-set partial-order reduction (DESIGN 2.8)")
 		for _, mode := range []string{"sj", "ss", "sl", "ls"} {
 			for i := range c13Ops {
